@@ -66,6 +66,14 @@ pub struct Case {
     /// 1 lets the prompt time out, 2 consents; each pair of results is compared as well
     #[serde(default)]
     pub warmup: u8,
+    /// before everything else a request is started on each side whose user prompt does not answer at once, polled this
+    /// many times (1..) and then dropped by its caller (a cancelled ceremony); 0 = none
+    #[serde(default)]
+    pub cancelled_first: u8,
+    /// held credentials carry a user handle of this many bytes (0 = the 15-byte default); handles are opaque byte strings
+    /// of any length as far as the store is concerned
+    #[serde(default)]
+    pub held_handle_len: u16,
 }
 
 fn rp_name(c: &Case, i: u8) -> String {
@@ -90,7 +98,8 @@ fn build(c: &Case) -> (Authenticator<RefStore, ScriptedUv>, RefStore, ScriptedUv
                 1 => Some((sha256(format!("g{k}").as_bytes()).to_vec(), None)),
                 _ => Some((sha256(format!("g{k}").as_bytes()).to_vec(), Some(sha256(format!("p{k}").as_bytes()).to_vec()))),
             };
-            make_passkey(300 + k as u64, &rp_name(c, *rp), &cred_id(k), uh.then_some(b"c18-user-handle".as_slice()), *counter, h)
+            let long: Vec<u8> = (0..c.held_handle_len).map(|i| b'A' + (i % 26) as u8).collect();
+            make_passkey(300 + k as u64, &rp_name(c, *rp), &cred_id(k), uh.then_some(if c.held_handle_len == 0 { b"c18-user-handle".as_slice() } else { long.as_slice() }), *counter, h)
         })
         .collect();
     let store = RefStore::with(c.disc, creds);
@@ -215,6 +224,53 @@ pub fn check(c: &Case) -> Result<&'static str, String> {
     let (mut b, sb, ub) = build(c);
     let initial: Vec<PkSnap> = sa.creds().iter().map(snap).collect();
     let class: &'static str;
+    if c.cancelled_first > 0 {
+        // the prompt suspends; each caller gives up after a few polls
+        let slow = UvScript { yields: 50, verification_enabled: Some(true), outcome: Ok((true, true)), ..c.script.clone() };
+        ua.set(slow.clone());
+        ub.set(slow);
+        sa.set_faults(Default::default());
+        sb.set_faults(Default::default());
+        let polls = c.cancelled_first as usize % 8 + 1;
+        if c.cancelled_first % 2 == 0 {
+            let mut t = crate::rt::Task::new(a.get_assertion(ga_request(c)));
+            for _ in 0..polls {
+                if t.poll() {
+                    break;
+                }
+            }
+            t.cancel();
+            drop(t);
+            let mut t = crate::rt::Task::new(Ctap2Api::get_assertion(&mut b, ga_request(c)));
+            for _ in 0..polls {
+                if t.poll() {
+                    break;
+                }
+            }
+            t.cancel();
+        } else {
+            let mut t = crate::rt::Task::new(a.make_credential(mc_request(c)));
+            for _ in 0..polls {
+                if t.poll() {
+                    break;
+                }
+            }
+            t.cancel();
+            drop(t);
+            let mut t = crate::rt::Task::new(Ctap2Api::make_credential(&mut b, mc_request(c)));
+            for _ in 0..polls {
+                if t.poll() {
+                    break;
+                }
+            }
+            t.cancel();
+        }
+        ua.set(c.script.clone());
+        ub.set(c.script.clone());
+        let faults: std::collections::BTreeMap<usize, u8> = c.faults.iter().map(|(i, code)| ((*i % 4) as usize, *code)).collect();
+        sa.set_faults(faults.clone());
+        sb.set_faults(faults);
+    }
     if c.warmup % 5 > 0 {
         let outcome = [Err(0x27u8), Err(0x2F), Ok((true, true))][(c.warmup / 5) as usize % 3];
         let warm = UvScript { outcome, verification_enabled: Some(true), ..c.script.clone() };
@@ -396,7 +452,7 @@ fn strategy() -> impl Strategy<Value = Case> {
         script,
         (0u8..2, proptest::bool::weighted(0.2), proptest::bool::weighted(0.85), any::<bool>(), proptest::bool::weighted(0.85), proptest::bool::weighted(0.15), 0u8..8, any::<u8>(), 0u8..3),
     )
-        .prop_map(|((op, hmac, counter_cfg, disc), contents, script, (rp, rk, up, uv, algs_supported, pin_auth, list, list_k, prf))| Case { op, hmac, counter_cfg, disc, contents, script, rp, rk, up, uv, algs_supported, pin_auth, list, list_k, prf, rp0: None, faults: vec![], hmac_in: 0, transports: 0, prf_by_cred: 0, user_len: 0, long_labels: false, warmup: 0 })
+        .prop_map(|((op, hmac, counter_cfg, disc), contents, script, (rp, rk, up, uv, algs_supported, pin_auth, list, list_k, prf))| Case { op, hmac, counter_cfg, disc, contents, script, rp, rk, up, uv, algs_supported, pin_auth, list, list_k, prf, rp0: None, faults: vec![], hmac_in: 0, transports: 0, prf_by_cred: 0, user_len: 0, long_labels: false, warmup: 0, cancelled_first: 0, held_handle_len: 0 })
         .prop_flat_map(|c| {
             // RP IDs of any shape and length (the API takes any string), and store calls failing with any status byte
             let ch = prop_oneof![6 => "[a-z0-9.-]", 2 => "[\u{80}-\u{7ff}]", 1 => "[\u{800}-\u{ffff}]", 1 => "[\u{10000}-\u{10ffff}]"];
@@ -412,6 +468,9 @@ fn strategy() -> impl Strategy<Value = Case> {
                 c.long_labels = (user_len + prf_by_cred) % 3 == 1;
                 // a third of the cases are served by authenticators that have answered earlier requests
                 c.warmup = if (hmac_in + transports + user_len) % 3 == 0 { c.list_k % 15 } else { 0 };
+                // a sixth start after a cancelled request; a sixth hold long user handles (up to ~1.3 kB)
+                c.cancelled_first = if (hmac_in + transports * 2 + user_len) % 6 == 1 { 1 + c.list_k % 16 } else { 0 };
+                c.held_handle_len = if (hmac_in * 2 + transports + user_len) % 6 == 2 { 64 + c.list_k as u16 * 5 } else { 0 };
                 c
             })
         })
@@ -472,6 +531,8 @@ fn minimise(case: &Case) -> Case {
         Box::new(|c| Case { user_len: 0, ..c.clone() }),
         Box::new(|c| Case { long_labels: false, ..c.clone() }),
         Box::new(|c| Case { warmup: 0, ..c.clone() }),
+        Box::new(|c| Case { cancelled_first: 0, ..c.clone() }),
+        Box::new(|c| Case { held_handle_len: 0, ..c.clone() }),
         Box::new(|c| Case { contents: vec![], ..c.clone() }),
         Box::new(|c| Case { contents: c.contents.iter().take(1).cloned().collect(), ..c.clone() }),
         Box::new(|c| Case { prf: 0, ..c.clone() }),
